@@ -14,6 +14,7 @@ import (
 	gvfs "github.com/lni/vfs"
 
 	dragonboat "github.com/lni/dragonboat/v4"
+	"github.com/lni/dragonboat/v4/internal/rsm"
 	"github.com/lni/dragonboat/v4/tools"
 	"github.com/lni/dragonboat/v4/verifh/cluster"
 	"github.com/lni/dragonboat/v4/verifh/common"
@@ -27,7 +28,7 @@ import (
 func importerMode(r *common.Run, sk *sink) {
 	r.SetRule("each case = real NodeHosts (6 hosts, shard on 3 of them, optional removed member, non-voting member and witness before the export), PRNG-chosen store / state machine kind / export point / new member list (subset of old members, old + entirely new ids on spare hosts, single member), a battery of invalid imports checked for refusal and for an unchanged file tree, the valid import on every listed host, restart and comparison of membership and state with the exported state; corruption cases flip one byte or truncate / delete one file of the export and require refusal or exactly the exported state; non-trivial = proposals were made after the export point (so that a wrong state is distinguishable) and the restarted shard completed a new proposal; distinct by hash of (options, member list, outcome)")
 	r.Assume("the exported state is reconstructed from the apply records of the instrumented state machine up to the index returned by the export request")
-	n := r.Pick(48, 600)
+	n := r.Pick(120, 800)
 	for _, c := range r.MyCases(n) {
 		runImport(r, sk, c, r.Rand("import", c), r.SubSeed("import-seed", c))
 		r.Flush()
@@ -258,6 +259,22 @@ func runImport(r *common.Run, sk *sink, caseNo int, rng *rand.Rand, seed int64) 
 	}
 	var exportIndex uint64
 	okExport := false
+	// the exporting replica must have applied the membership changes made above (they were
+	// acknowledged by the leader, this host may lag): a linearizable read on it is a barrier
+	barrier := false
+	for try := 0; try < 40 && !barrier; try++ {
+		ctx, cancel := context.WithTimeout(context.Background(), time.Second)
+		_, err := eh.NodeHost().SyncRead(ctx, shardID, cluster.LookupQuery{Key: 0})
+		cancel()
+		barrier = err == nil
+		if !barrier {
+			time.Sleep(50 * time.Millisecond)
+		}
+	}
+	if !barrier {
+		r.Inconclusive(fmt.Sprintf("case %d: no linearizable read on the exporting host", caseNo))
+		return
+	}
 	for try := 0; try < 20 && !okExport; try++ {
 		ctx, cancel := context.WithTimeout(context.Background(), 3*time.Second)
 		idx, err := eh.NodeHost().SyncRequestSnapshot(ctx, shardID, dragonboat.SnapshotOption{Exported: true, ExportPath: exportDir})
@@ -498,6 +515,42 @@ func runImport(r *common.Run, sk *sink, caseNo int, rng *rand.Rand, seed int64) 
 		return
 	}
 	if corrupt {
+		// The import tool compares the recorded checksum with the checksums stored in the file,
+		// not with the data (rsm.GetV2PayloadChecksum). Damage inside a block is found by the
+		// snapshot reader when the replica recovers from the file: it panics ("corrupted block")
+		// in the snapshot worker - the required loud failure, altered data never reaches the
+		// state machine. A panic in that worker would end this process, so the same reader is run
+		// here first; only an image that it reads without complaint is restarted from.
+		for _, hi := range hostOfNew {
+			fs := c.Hosts[hi].FS
+			for _, f := range files {
+				if !strings.HasSuffix(f, ".gbsnap") {
+					continue
+				}
+				var rerr error
+				func() {
+					defer func() {
+						if x := recover(); x != nil {
+							rerr = fmt.Errorf("panic: %v", x)
+						}
+					}()
+					rd, _, err := rsm.NewSnapshotReader(fs.PathJoin(srcDir, f), fs)
+					if err != nil {
+						rerr = err
+						return
+					}
+					defer func() { _ = rd.Close() }()
+					_, rerr = io.Copy(io.Discard, rd)
+				}()
+				if rerr != nil {
+					sk.Count("corrupted_export_fails_loudly_when_loaded", 1)
+					wit["load_failure"] = rerr.Error()
+					r.Case(false, common.Hash("corrupt-load-fails", corruptWhat, caseNo))
+					return
+				}
+			}
+			break
+		}
 		sk.Count("corrupted_export_accepted_checked_for_equal_state", 1)
 	}
 	// ---- restart the listed hosts, start the replicas ----
